@@ -93,7 +93,89 @@ theorem fine_par : ∀ (φ : Oracle) (rs : List Region), allGuardedL false rs = 
     exact worse_fine _ _ (top_fine _ h1) h2
 end
 
+/-- for a command-line program an exit with a message is an acceptable end: what must never
+    happen is an unrecovered panic -/
+def NoCrash (o : Outcome) : Prop := o = .ok ∨ o = .error ∨ o = .killed
+def NoCrashRec (o : Outcome) : Prop := o = .ok ∨ o = .error ∨ o = .killed ∨ o = .panicking
+
+theorem worse_nocrash (a b : Outcome) (ha : NoCrash a) (hb : NoCrash b) : NoCrash (worse a b) := by
+  rcases ha with rfl | rfl | rfl <;> rcases hb with rfl | rfl | rfl <;> simp [worse, NoCrash]
+
+theorem top_nocrash (o : Outcome) (h : NoCrash o) : NoCrash (atGoroutineTop o) := by
+  rcases h with rfl | rfl | rfl <;> simp [atGoroutineTop, NoCrash]
+
+mutual
+theorem nc_unguarded : ∀ (φ : Oracle) (r : Region), allGuarded false r = true → NoCrash (run φ r)
+  | φ, .leaf n e, hg => by simp [allGuarded] at hg
+  | φ, .seq rs, hg => by
+    simp only [allGuarded] at hg; simp only [run]; exact nc_seq_unguarded φ rs hg
+  | φ, .par rs, hg => by
+    simp only [allGuarded] at hg; simp only [run]; exact nc_par φ rs hg
+  | φ, .guarded r, hg => by
+    simp only [allGuarded] at hg
+    have := nc_guarded φ r hg
+    simp only [run]
+    rcases this with h | h | h | h <;> simp [h, NoCrash]
+theorem nc_guarded : ∀ (φ : Oracle) (r : Region), allGuarded true r = true → NoCrashRec (run φ r)
+  | φ, .leaf n e, _ => by
+    simp only [run, leafOutcome]
+    cases φ n <;> cases e <;> simp [NoCrashRec]
+  | φ, .seq rs, hg => by
+    simp only [allGuarded] at hg; simp only [run]; exact nc_seq_guarded φ rs hg
+  | φ, .par rs, hg => by
+    simp only [allGuarded] at hg; simp only [run]
+    rcases nc_par φ rs hg with h | h | h <;> simp [h, NoCrashRec]
+  | φ, .guarded r, hg => by
+    simp only [allGuarded] at hg
+    have := nc_guarded φ r hg
+    simp only [run]
+    rcases this with h | h | h | h <;> simp [h, NoCrashRec]
+theorem nc_seq_unguarded : ∀ (φ : Oracle) (rs : List Region), allGuardedL false rs = true → NoCrash (runSeq φ rs)
+  | φ, [], _ => by simp [runSeq, NoCrash]
+  | φ, r :: rest, hg => by
+    simp only [allGuardedL, Bool.and_eq_true] at hg
+    have h1 := nc_unguarded φ r hg.1
+    have h2 := nc_seq_unguarded φ rest hg.2
+    simp only [runSeq]
+    rcases h1 with h1 | h1 | h1
+    · simp [h1]; exact h2
+    · simp [h1, NoCrash]
+    · simp [h1, NoCrash]
+theorem nc_seq_guarded : ∀ (φ : Oracle) (rs : List Region), allGuardedL true rs = true → NoCrashRec (runSeq φ rs)
+  | φ, [], _ => by simp [runSeq, NoCrashRec]
+  | φ, r :: rest, hg => by
+    simp only [allGuardedL, Bool.and_eq_true] at hg
+    have h1 := nc_guarded φ r hg.1
+    have h2 := nc_seq_guarded φ rest hg.2
+    simp only [runSeq]
+    rcases h1 with h1 | h1 | h1 | h1
+    · simp [h1]; exact h2
+    · simp [h1, NoCrashRec]
+    · simp [h1, NoCrashRec]
+    · simp [h1, NoCrashRec]
+theorem nc_par : ∀ (φ : Oracle) (rs : List Region), allGuardedL false rs = true → NoCrash (runPar φ rs)
+  | φ, [], _ => by simp [runPar, NoCrash]
+  | φ, r :: rest, hg => by
+    simp only [allGuardedL, Bool.and_eq_true] at hg
+    have h1 := nc_unguarded φ r hg.1
+    have h2 := nc_par φ rest hg.2
+    simp only [runPar]
+    exact worse_nocrash _ _ (top_nocrash _ h1) h2
+end
+
 /-! ## PROPERTY THEOREMS (C01 / C20) -/
+
+/-- **cmd_never_crashes** (C20): if every stretch of a command's code runs under a recover of
+    its own goroutine, then for EVERY placement of panics, errors and exits the command ends
+    with output, an error, or an exit it performed itself — never with an unrecovered panic. -/
+theorem cmd_never_crashes (P : Region) (hg : allGuarded false P = true) :
+    ∀ φ : Oracle, runProgram φ P ≠ .crash := by
+  intro φ h
+  have := top_nocrash _ (nc_unguarded φ P hg)
+  unfold runProgram at h
+  rw [h] at this
+  rcases this with h | h | h <;> cases h
+
 
 /-- **parse_total**: if every leaf of the program runs under a recover of its OWN goroutine
     and no leaf contains a process-exit call, then for EVERY fault oracle — a panic or an
